@@ -9,13 +9,16 @@ from __future__ import annotations
 
 import contextlib
 import importlib
+import os
 import sys
 
 import numpy as np
 
 from . import symnum as sn
 
-REPO_SRC = '/repo/src'
+# VERIF_REPO_SRC: development aid only (seeded changes are tried in a scratch worktree while /repo is busy); the
+# registered commands never set it, so they always read /repo's current working tree
+REPO_SRC = os.environ.get('VERIF_REPO_SRC', '/repo/src')
 if REPO_SRC not in sys.path:
     sys.path.insert(0, REPO_SRC)
 
